@@ -443,6 +443,32 @@ mod param {
                 let mut type_params = IndexMap::new();
                 let mut const_params = IndexMap::new();
 
+                // NOTE: Trailing params that are not given in the impl take their default value
+                let omitted_params = main_trait.generics.params.iter().skip(bracketed.args.len());
+                let default_type_args = omitted_params
+                    .clone()
+                    .filter_map(|param| match param {
+                        syn::GenericParam::Type(syn::TypeParam {
+                            ident,
+                            default: Some(default),
+                            ..
+                        }) => Some((ident.clone(), default.clone())),
+                        _ => None,
+                    })
+                    .collect::<Vec<_>>();
+                let default_const_args = omitted_params
+                    .filter_map(|param| match param {
+                        syn::GenericParam::Const(syn::ConstParam {
+                            ident,
+                            default: Some(default),
+                            ..
+                        }) => Some((ident.clone(), default.clone())),
+                        _ => None,
+                    })
+                    .collect::<Vec<_>>();
+                type_params.extend(default_type_args.iter().map(|(param, arg)| (param.clone(), arg)));
+                const_params.extend(default_const_args.iter().map(|(param, arg)| (param.clone(), arg)));
+
                 // NOTE: Const param given as a generic argument (`Kita<T, N>`) is parsed as a type
                 let const_param_args = bracketed
                     .args
